@@ -1,6 +1,7 @@
 mod adapter;
 mod choice;
 mod gen;
+mod machine;
 mod model;
 mod props;
 mod reflex;
